@@ -14,12 +14,15 @@ POPULATIONS = [
      'milestone': [False, True, False, True], 'tag': [ABSENT, None, 'ab', 'ba'], 'num': [2, ABSENT, None, 5]},
     {'name': ['ba', 'ba', None, 'ab'], 'resource': [None, None, 'ba', 'ab'], 'estimate': [5, 5, None, 2], 'spent': [None, 2, 2, 5],
      'milestone': [True, False, False, False], 'tag': ['ab', ABSENT, ABSENT, None], 'num': [None, 5, 5, ABSENT]},
+    # empty strings and zeros are values, not "lacking"
+    {'name': ['', 'ab', None, ''], 'resource': ['ab', '', '', None], 'estimate': [0, 2, None, 0], 'spent': [0, 0, 5, None],
+     'milestone': [False, False, True, False], 'tag': ['', ABSENT, 'ab', None], 'num': [0, 2, ABSENT, 0]},
 ]
 STR_ATTRS = ['name', 'resource', 'tag']
 NUM_ATTRS = ['estimate', 'spent', 'num', 'id', 'parent_id']
-STR_VALUES = ['ab', 'ba', 'zz']
-NUM_VALUES = [2, 5, 3]
-REGEXES = ['^a', 'b$', '.', 'x']
+STR_VALUES = ['ab', 'ba', 'zz', '']
+NUM_VALUES = [2, 5, 3, 0]
+REGEXES = ['^a', 'b$', '.', 'x', '^$', 'a*']
 
 
 def make_tasks(pop, par=(None, None, None, None)):
